@@ -68,6 +68,7 @@ var apiTexts = map[string]string{
 	"patchArr":      `[{"op":"add","path":"/1/-","value":{"q":1}},{"op":"copy","from":"/0","path":"/-"},{"op":"test","path":"/2","value":"t"}]`,
 	"patchTst":      `[{"op":"add","path":"/w","value":1},{"op":"test","path":"/a/n","value":"no"}]`,
 	"patchNeg":      `[{"op":"add","path":"/1/-1","value":9},{"op":"remove","path":"/-1"}]`,
+	"patchBig":      `[{"op":"add","path":"/n","value":{"big":12345678901234567890123,"e":1e400,"f":1.0}},{"op":"move","from":"/n","path":"/m"},{"op":"test","path":"/m/f","value":1.0}]`,
 	"patchCopyFail": `[{"op":"copy","from":"/a/b","path":"/c1"},{"op":"test","path":"/k","value":"no"}]`,
 	"patchCopyBig":  `[{"op":"copy","from":"/a","path":"/c1"},{"op":"copy","from":"/a","path":"/c2"},{"op":"copy","from":"/a","path":"/c3"}]`,
 	"patchBad":      `[{"op":"add","path":"/w","value":1},`,
@@ -149,6 +150,16 @@ func newAPIWorld() *apiWorld {
 				return nil, err
 			}
 			return p.Apply(B("docObj"))
+		}},
+		{"accessors of the shared patch (Kind, Path, From, ValueInterface of every operation)", true, func(w *apiWorld) ([]byte, error) {
+			var sb strings.Builder
+			for _, op := range w.patches["patchBig"] {
+				p, e1 := op.Path()
+				f, e2 := op.From()
+				v, e3 := op.ValueInterface()
+				fmt.Fprintf(&sb, "%s %q %v %q %v %#v %v; ", op.Kind(), p, e1 != nil, f, e2 != nil, v, e3 != nil)
+			}
+			return []byte(sb.String()), nil
 		}},
 		{"DecodePatch(patchBad)", true, func(w *apiWorld) ([]byte, error) { return decodeOnly(B("patchBad")) }},
 		{"DecodePatch(patchInv)", true, func(w *apiWorld) ([]byte, error) { return decodeOnly(B("patchInv")) }},
@@ -302,7 +313,7 @@ func decodeOnly(b []byte) ([]byte, error) {
 }
 
 func (w *apiWorld) decodePatches() {
-	for _, k := range []string{"patchOK", "patchArr", "patchTst", "patchNeg", "patchCopyFail", "patchCopyBig", "patchS", "patchTstS", "rootPatchS"} {
+	for _, k := range []string{"patchOK", "patchArr", "patchTst", "patchNeg", "patchCopyFail", "patchCopyBig", "patchBig", "patchS", "patchTstS", "rootPatchS"} {
 		p, err := v5.DecodePatch([]byte(apiTexts[k])) // from a private copy: the Patch must not alias a shared buffer
 		if err != nil {
 			panic("harness patch " + k + ": " + err.Error())
